@@ -750,6 +750,15 @@ struct SidePlan {
     dgram_wait: bool,
     trailing_accept: bool,
     cancel_conn_ops: bool,
+    /// numbers of CONCURRENT waiter tasks on the same condition ([bi, uni]); 0/1 = a single task
+    k_accept: [usize; 2],
+    k_open: [usize; 2],
+    k_dg_read: usize,
+    k_dg_send: usize,
+    /// every datagram of the peer is known to arrive (loss-free network, waiting sender): readers have quotas
+    dg_quota: bool,
+    /// concurrent closed() / handshake_confirmed() / authenticated() / stopped() / wait_idle() waiters
+    k_watch: usize,
 }
 
 #[derive(Clone, Copy, Debug, PartialEq, Eq)]
@@ -790,6 +799,13 @@ struct Plan {
     drop_endpoint_early: Option<usize>,
     incoming: IncomingKind,
     tick: u64,
+    /// this case runs several concurrent waiters on the same conditions
+    multi: bool,
+    /// producers leave a pause after each unit (stream, datagram, connection attempt)
+    unit_gaps: bool,
+    /// concurrent Endpoint::accept waiters on the server and further (refused) connection attempts of the client
+    k_ep_accept: usize,
+    extra_connects: usize,
 }
 
 fn gen_job(rng: &mut Rng, id: &mut usize) -> Job {
@@ -875,7 +891,7 @@ fn gen_plan(rng: &mut Rng) -> Plan {
     } else {
         None
     };
-    Plan {
+    let mut plan = Plan {
         sides,
         tc,
         net,
@@ -885,7 +901,77 @@ fn gen_plan(rng: &mut Rng) -> Plan {
         drop_endpoint_early: if rng.chance(1, 3) { Some(rng.below(2) as usize) } else { None },
         incoming: *rng.pick(&[IncomingKind::Accept, IncomingKind::Accept, IncomingKind::IntoFuture, IncomingKind::RetryFirst]),
         tick: *rng.pick(&[0u64, 0, 100, 1000]),
+        multi: false,
+        unit_gaps: false,
+        k_ep_accept: 1,
+        extra_connects: 0,
+    };
+    // ---- about a third of the cases: 2-3 CONCURRENT waiter tasks on the same condition, for every wait of the
+    // API that goes through a shared Notify; the peer satisfies the condition one unit at a time, with pauses, so
+    // that notify_waiters() wakes all of them, one wins and the others find the condition false again
+    if rng.chance(1, 3) {
+        plan.multi = true;
+        plan.unit_gaps = rng.chance(3, 4);
+        let kk = |rng: &mut Rng, n: usize| (2 + rng.below(2) as usize).min(n.max(1));
+        for o in 0..2 {
+            let a = 1 - o; // the accepting / receiving side
+            plan.sides[o].k_watch = 2 + rng.below(2) as usize;
+            plan.sides[o].cancel_conn_ops = rng.chance(1, 2);
+            for d in 0..2 {
+                if !rng.chance(2, 3) {
+                    continue;
+                }
+                let want = 2 + rng.below(3) as usize;
+                loop {
+                    let list = if d == 0 { &mut plan.sides[o].bi } else { &mut plan.sides[o].uni };
+                    if list.len() >= want {
+                        break;
+                    }
+                    let fwd = gen_job(rng, &mut id);
+                    let bwd = if d == 0 { Some(gen_job(rng, &mut id)) } else { None };
+                    list.push(StreamPlan { fwd, bwd });
+                }
+                let n = if d == 0 { plan.sides[o].bi.len() } else { plan.sides[o].uni.len() };
+                plan.sides[o].k_open[d] = kk(rng, n);
+                plan.sides[a].k_accept[d] = kk(rng, n);
+                if rng.chance(1, 2) {
+                    // the openers compete for one stream credit at a time
+                    if d == 0 {
+                        plan.tc[a].max_bi = 1;
+                    } else {
+                        plan.tc[a].max_uni = 1;
+                    }
+                }
+            }
+            if rng.chance(1, 2) {
+                // datagrams: every one arrives (no loss, waiting senders), so the readers have quotas
+                plan.sides[o].dgrams = 4 + rng.below(6) as usize;
+                plan.sides[o].dgram_wait = true;
+                plan.sides[o].k_dg_send = kk(rng, plan.sides[o].dgrams);
+                plan.tc[o].dg_sbuf = 1500;
+                plan.sides[a].k_dg_read = kk(rng, plan.sides[o].dgrams);
+                plan.sides[a].dg_quota = true;
+                // (… and no reordering: a 1-RTT packet that overtakes the end of the handshake is undecryptable
+                // and dropped by the receiver, and DATAGRAM frames are not retransmitted)
+                plan.net.loss_pct = 0;
+                plan.net.jitter = 0;
+            }
+        }
+        // a datagram quota on one side needs the loss-free network for the other direction as well
+        for o in 0..2 {
+            if plan.net.loss_pct == 0 && plan.sides[o].dgrams > 0 && plan.sides[o].dgram_wait && plan.sides[1 - o].k_dg_read > 0 {
+                plan.sides[1 - o].dg_quota = true;
+            }
+        }
+        if rng.chance(1, 2) {
+            plan.k_ep_accept = 2 + rng.below(2) as usize;
+            plan.extra_connects = plan.k_ep_accept - 1 + rng.below(2) as usize;
+            if plan.incoming == IncomingKind::RetryFirst {
+                plan.incoming = IncomingKind::Accept;
+            }
+        }
     }
+    plan
 }
 
 // ------------------------------------------------------------------------------------------------
@@ -918,6 +1004,9 @@ struct CaseLog {
     dg_sent: [u64; 2],
     dg_recv: [u64; 2],
     dg_seen: [BTreeSet<u32>; 2],
+    units: BTreeSet<String>,
+    taken: BTreeMap<String, usize>,
+    first_incoming_taken: bool,
     /// a close action (or the decision to let the idle timeout fire) has happened: errors are expected now
     closing: bool,
     /// only the close itself can end the connection (used to judge errors before `closing`)
@@ -1027,6 +1116,43 @@ impl Ctx {
         let child = Ctx { w: self.w.clone(), tw: tw.clone(), log: self.log.clone(), h: self.h.clone(), rng: Rng::new(self.rng.next()), plan: self.plan.clone() };
         let fut: BoxFut = Box::pin(f(child));
         self.w.spawn_with(name, tw, fut);
+    }
+    /// a unit (stream, datagram, incoming connection, stream credit) was handed to this task: never twice
+    fn unit(&self, key: String) {
+        let fresh = self.log.lock().unwrap().units.insert(key.clone());
+        if !fresh {
+            self.fail("c18-unit-delivered-twice", format!("{key} was handed out to two waiters"));
+        }
+    }
+    /// count a unit taken by one of the concurrent waiters of `group`; returns the group's total
+    fn took(&self, group: &str) -> usize {
+        let mut l = self.log.lock().unwrap();
+        let e = l.taken.entry(group.to_string()).or_default();
+        *e += 1;
+        *e
+    }
+    /// producer-side pause long enough for the previous unit to reach the peer and for the waiters that lost
+    /// the race for it to park again
+    async fn unit_gap(&mut self) {
+        self.tw.info.lock().unwrap().mode = Mode::Idle;
+        let until = self.w.now() + 8 * MS + self.rng.below(12 * MS);
+        Sleep { w: self.w.clone(), until, id: None }.await;
+        self.tw.info.lock().unwrap().mode = Mode::Busy;
+    }
+    fn note_datagram(&self, side: usize, peer: usize, b: &[u8], cancel: bool) {
+        let ok = b.len() >= 5 && b[0] as usize == peer;
+        let idx = if ok { u32::from_be_bytes([b[1], b[2], b[3], b[4]]) } else { u32::MAX };
+        let good = ok && (idx as usize) < self.plan.sides[peer].dgrams && b[..] == dgram_payload(peer, idx, b.len() - 5)[..];
+        if !good {
+            self.fail("c18-data-corrupt", format!("{} read_datagram returned {} bytes that no datagram of the peer had", SIDE[side], b.len()));
+        }
+        let mut l = self.log.lock().unwrap();
+        l.dg_recv[side] += 1;
+        let dup = good && !l.dg_seen[side].insert(idx);
+        drop(l);
+        if dup {
+            self.fail(if cancel { "c18-cancel-duplicated-data" } else { "c18-data-duplicated" }, format!("{} read_datagram delivered datagram {idx} twice", SIDE[side]));
+        }
     }
     fn job<R>(&self, id: usize, f: impl FnOnce(&mut JobRes) -> R) -> R {
         f(self.log.lock().unwrap().jobs.entry(id).or_default())
@@ -1254,11 +1380,13 @@ async fn writer(mut ctx: Ctx, job: Job, mut send: SendStream) {
     let data = job_data(&job);
     let mut off = 0usize;
     let mut err: Option<String> = None;
-    if job.watch_stopped {
+    // (in multi-waiter cases several tasks await stopped() of the same stream: one shared Notify in the map)
+    let nwatch = if job.watch_stopped { if ctx.plan.multi { 2 + ctx.rng.below(2) as usize } else { 1 } } else { 0 };
+    for w in 0..nwatch {
         let fut = send.stopped();
         let id = job.id;
-        ctx.spawn(format!("app:stopped:job{id}"), Class::Job, move |c| async move {
-            c.set_op(&format!("stopped job={id}"));
+        ctx.spawn(format!("app:stopped{w}:job{id}"), Class::Job, move |c| async move {
+            c.set_op(&format!("stopped job={id} waiter {w}/{nwatch}"));
             let r = fut.await;
             match &r {
                 Ok(_) => c.count("result:stopped-ok"),
@@ -1326,38 +1454,57 @@ async fn writer(mut ctx: Ctx, job: Job, mut send: SendStream) {
     ctx.idle_gap().await;
 }
 
-async fn opener(mut ctx: Ctx, side: usize, conn: Connection, bi: bool) {
+/// split `n` units among `k` waiters, each at least one (k <= n), seeded
+fn quotas(rng: &mut Rng, n: usize, k: usize) -> Vec<usize> {
+    let k = k.clamp(1, n.max(1));
+    let mut q = vec![if n == 0 { 0 } else { 1 }; k];
+    for _ in k..n {
+        let i = rng.below(k as u64) as usize;
+        q[i] += 1;
+    }
+    q
+}
+
+/// waiter `w` of `k` concurrent tasks opening streams of one direction on the same connection: opens `quota`
+/// streams; which job a stream carries is decided by the index of the stream id it obtained
+async fn opener(mut ctx: Ctx, side: usize, conn: Connection, bi: bool, w: usize, k: usize, quota: usize) {
     let plans = if bi { ctx.plan.sides[side].bi.clone() } else { ctx.plan.sides[side].uni.clone() };
     let cancel = ctx.plan.sides[side].cancel_conn_ops;
-    for (k, sp) in plans.into_iter().enumerate() {
-        if bi {
-            match cancelable!(ctx, "open_bi", None, cancel, conn.open_bi()) {
-                Ok((s, r)) => {
-                    if s.id().index() != k as u64 {
-                        ctx.fail("c18-open-order", format!("{} open_bi #{k} returned stream index {}", SIDE[side], s.id().index()));
-                    }
-                    let (f, b) = (sp.fwd.clone(), sp.bwd.clone().unwrap());
-                    ctx.spawn(format!("app:{}:writer:job{}", SIDE[side], f.id), Class::Job, move |c| writer(c, f, s));
-                    ctx.spawn(format!("app:{}:reader:job{}", SIDE[side], b.id), Class::Job, move |c| reader(c, b, r));
-                }
+    let gap = ctx.plan.unit_gaps;
+    let label = if bi { format!("open_bi waiter {w}/{k}") } else { format!("open_uni waiter {w}/{k}") };
+    for j in 0..quota {
+        let (idx, send, recv) = if bi {
+            match cancelable!(ctx, &label, None, cancel, conn.open_bi()) {
+                Ok((s, r)) => (s.id().index() as usize, s, Some(r)),
                 Err(e) => {
                     ctx.conn_err("open_bi", err_kind(&e));
                     return;
                 }
             }
         } else {
-            match cancelable!(ctx, "open_uni", None, cancel, conn.open_uni()) {
-                Ok(s) => {
-                    let f = sp.fwd.clone();
-                    ctx.spawn(format!("app:{}:writer:job{}", SIDE[side], f.id), Class::Job, move |c| writer(c, f, s));
-                }
+            match cancelable!(ctx, &label, None, cancel, conn.open_uni()) {
+                Ok(s) => (s.id().index() as usize, s, None),
                 Err(e) => {
                     ctx.conn_err("open_uni", err_kind(&e));
                     return;
                 }
             }
+        };
+        if (k == 1 && idx != j) || idx >= plans.len() {
+            ctx.fail("c18-open-order", format!("{} {label} #{j} returned stream index {idx}", SIDE[side]));
+            return;
         }
-        if ctx.rng.chance(1, 3) {
+        ctx.unit(format!("open:{}:{}:{idx}", SIDE[side], bi));
+        let sp = plans[idx].clone();
+        let f = sp.fwd.clone();
+        ctx.spawn(format!("app:{}:writer:job{}", SIDE[side], f.id), Class::Job, move |c| writer(c, f, send));
+        if let (Some(r), Some(b)) = (recv, sp.bwd.clone()) {
+            ctx.spawn(format!("app:{}:reader:job{}", SIDE[side], b.id), Class::Job, move |c| reader(c, b, r));
+        }
+        if gap {
+            ctx.set_op("gap between opens");
+            ctx.unit_gap().await;
+        } else if ctx.rng.chance(1, 3) {
             ctx.set_op("idle between opens");
             ctx.idle_gap().await;
         }
@@ -1365,48 +1512,56 @@ async fn opener(mut ctx: Ctx, side: usize, conn: Connection, bi: bool) {
     drop(conn);
 }
 
-async fn acceptor(mut ctx: Ctx, side: usize, conn: Connection, bi: bool) {
+/// waiter `w` of `k` concurrent tasks accepting streams of one direction on the same connection: accepts
+/// `quota` streams (the quotas add up to what the peer opens, so every waiter must complete)
+async fn acceptor(mut ctx: Ctx, side: usize, conn: Connection, bi: bool, w: usize, k: usize, quota: usize) {
     let peer = 1 - side;
     let plans = if bi { ctx.plan.sides[peer].bi.clone() } else { ctx.plan.sides[peer].uni.clone() };
     let cancel = ctx.plan.sides[side].cancel_conn_ops;
     let trailing = ctx.plan.sides[side].trailing_accept;
-    let n = plans.len();
-    for k in 0..n + trailing as usize {
-        if k == n {
-            // one accept more than the peer opens streams: pending until the connection ends
+    let label = if bi { format!("accept_bi waiter {w}/{k}") } else { format!("accept_uni waiter {w}/{k}") };
+    let group = format!("accept:{}:{bi}", SIDE[side]);
+    // one accept more than the peer opens streams (pending until the connection ends) is made by the waiter
+    // that took the last stream, so that it cannot take a stream another waiter is waiting for
+    let mut extra = trailing && plans.is_empty() && w == 0;
+    let mut j = 0;
+    while j < quota || extra {
+        if j >= quota {
             ctx.set_class(Class::UntilClose);
         }
-        if bi {
-            match cancelable!(ctx, "accept_bi", None, cancel, conn.accept_bi()) {
-                Ok((s, r)) if k < n => {
-                    if r.id().index() != k as u64 {
-                        ctx.fail("c18-accept-order", format!("{} accept_bi #{k} returned stream index {}", SIDE[side], r.id().index()));
-                    }
-                    let (f, b) = (plans[k].fwd.clone(), plans[k].bwd.clone().unwrap());
-                    ctx.spawn(format!("app:{}:reader:job{}", SIDE[side], f.id), Class::Job, move |c| reader(c, f, r));
-                    ctx.spawn(format!("app:{}:writer:job{}", SIDE[side], b.id), Class::Job, move |c| writer(c, b, s));
-                }
-                Ok(_) => ctx.fail("c18-accept-order", format!("{} accept_bi yielded a stream the peer never opened", SIDE[side])),
+        let (idx, send, recv) = if bi {
+            match cancelable!(ctx, &label, None, cancel, conn.accept_bi()) {
+                Ok((s, r)) => (r.id().index() as usize, Some(s), r),
                 Err(e) => {
                     ctx.conn_err("accept_bi", err_kind(&e));
                     return;
                 }
             }
         } else {
-            match cancelable!(ctx, "accept_uni", None, cancel, conn.accept_uni()) {
-                Ok(r) if k < n => {
-                    if r.id().index() != k as u64 {
-                        ctx.fail("c18-accept-order", format!("{} accept_uni #{k} returned stream index {}", SIDE[side], r.id().index()));
-                    }
-                    let f = plans[k].fwd.clone();
-                    ctx.spawn(format!("app:{}:reader:job{}", SIDE[side], f.id), Class::Job, move |c| reader(c, f, r));
-                }
-                Ok(_) => ctx.fail("c18-accept-order", format!("{} accept_uni yielded a stream the peer never opened", SIDE[side])),
+            match cancelable!(ctx, &label, None, cancel, conn.accept_uni()) {
+                Ok(r) => (r.id().index() as usize, None, r),
                 Err(e) => {
                     ctx.conn_err("accept_uni", err_kind(&e));
                     return;
                 }
             }
+        };
+        if j >= quota || idx >= plans.len() {
+            ctx.fail("c18-accept-order", format!("{} {label} yielded stream index {idx}, which the peer never opened", SIDE[side]));
+            return;
+        }
+        if k == 1 && idx != j {
+            ctx.fail("c18-accept-order", format!("{} {label} #{j} returned stream index {idx}", SIDE[side]));
+        }
+        ctx.unit(format!("accept:{}:{}:{idx}", SIDE[side], bi));
+        let f = plans[idx].fwd.clone();
+        ctx.spawn(format!("app:{}:reader:job{}", SIDE[side], f.id), Class::Job, move |c| reader(c, f, recv));
+        if let (Some(s), Some(b)) = (send, plans[idx].bwd.clone()) {
+            ctx.spawn(format!("app:{}:writer:job{}", SIDE[side], b.id), Class::Job, move |c| writer(c, b, s));
+        }
+        j += 1;
+        if ctx.took(&group) == plans.len() && trailing {
+            extra = true;
         }
     }
 }
@@ -1418,19 +1573,24 @@ fn dgram_payload(side: usize, idx: u32, len: usize) -> Bytes {
     v.into()
 }
 
-async fn dgram_sender(mut ctx: Ctx, side: usize, conn: Connection) {
+/// sender `w` of `k` concurrent tasks: sends the datagrams whose index is congruent to `w`
+async fn dgram_sender(mut ctx: Ctx, side: usize, conn: Connection, w: usize, k: usize) {
     let n = ctx.plan.sides[side].dgrams;
     let wait = ctx.plan.sides[side].dgram_wait;
-    for i in 0..n as u32 {
+    let gap = ctx.plan.unit_gaps;
+    let label = format!("send_datagram_wait waiter {w}/{k}");
+    for i in (0..n as u32).filter(|i| *i as usize % k == w) {
         let max = conn.max_datagram_size().unwrap_or(0);
         if max < 16 {
             ctx.count("dgram:unsupported");
             return;
         }
-        let len = (1 + ctx.rng.below(900) as usize).min(max - 8);
+        // concurrent waiting senders: datagrams so large that two do not fit the 1500-byte send buffer, sent
+        // back to back, so that the senders really block and compete for each DatagramsUnblocked
+        let len = if k > 1 { 700 + ctx.rng.below(300) as usize } else { 1 + ctx.rng.below(900) as usize }.min(max - 8);
         let p = dgram_payload(side, i, len);
         if wait {
-            ctx.set_op("send_datagram_wait");
+            ctx.set_op(&label);
             match conn.send_datagram_wait(p).await {
                 Ok(()) => ctx.log.lock().unwrap().dg_sent[side] += 1,
                 Err(e) => {
@@ -1447,33 +1607,47 @@ async fn dgram_sender(mut ctx: Ctx, side: usize, conn: Connection) {
                 }
             }
         }
-        if ctx.rng.chance(1, 2) {
+        if k > 1 {
+            continue;
+        }
+        if gap {
+            ctx.set_op("gap between datagrams");
+            ctx.unit_gap().await;
+        } else if ctx.rng.chance(1, 2) {
             ctx.set_op("idle between datagrams");
             ctx.idle_gap().await;
         }
     }
 }
 
-async fn dgram_reader(mut ctx: Ctx, side: usize, conn: Connection) {
+/// reader `w` of `k` concurrent tasks on the same connection. With a quota (only when every datagram is known
+/// to arrive: loss-free network, waiting sender) the reader must obtain that many datagrams; reader 0 then goes
+/// on reading until the connection ends and applies the final accounting.
+async fn dgram_reader(mut ctx: Ctx, side: usize, conn: Connection, w: usize, k: usize, quota: Option<usize>) {
     let peer = 1 - side;
     let cancel = ctx.plan.sides[side].cancel_conn_ops;
     let local_close;
+    let label = format!("read_datagram waiter {w}/{k}");
+    let mut mine = 0usize;
+    let group = format!("read_datagram:{}", SIDE[side]);
+    let total = ctx.plan.sides[peer].dgrams;
+    if quota == Some(0) {
+        return;
+    }
     loop {
-        match cancelable!(ctx, "read_datagram", None, cancel, conn.read_datagram()) {
+        match cancelable!(ctx, &label, None, cancel, conn.read_datagram()) {
             Ok(b) => {
-                let ok = b.len() >= 5 && b[0] as usize == peer;
-                let idx = if ok { u32::from_be_bytes([b[1], b[2], b[3], b[4]]) } else { u32::MAX };
-                let good = ok && (idx as usize) < ctx.plan.sides[peer].dgrams && b[..] == dgram_payload(peer, idx, b.len() - 5)[..];
-                if !good {
-                    ctx.fail("c18-data-corrupt", format!("{} read_datagram returned {} bytes that no datagram of the peer had", SIDE[side], b.len()));
+                mine += 1;
+                let all = ctx.took(&group) >= total;
+                if quota == Some(mine) {
+                    if !all {
+                        ctx.note_datagram(side, peer, &b, cancel);
+                        return;
+                    }
+                    // the reader that took the last datagram stays until the connection ends (final accounting)
+                    ctx.set_class(Class::UntilClose);
                 }
-                let mut l = ctx.log.lock().unwrap();
-                l.dg_recv[side] += 1;
-                let dup = good && !l.dg_seen[side].insert(idx);
-                drop(l);
-                if dup {
-                    ctx.fail(if cancel { "c18-cancel-duplicated-data" } else { "c18-data-duplicated" }, format!("{} read_datagram delivered datagram {idx} twice", SIDE[side]));
-                }
+                ctx.note_datagram(side, peer, &b, cancel);
             }
             Err(e) => {
                 ctx.conn_err("read_datagram", err_kind(&e));
@@ -1492,19 +1666,28 @@ async fn dgram_reader(mut ctx: Ctx, side: usize, conn: Connection) {
     }
 }
 
-async fn closed_watcher(ctx: Ctx, side: usize, conn: Connection) {
-    ctx.set_op("closed");
+async fn closed_watcher(ctx: Ctx, side: usize, conn: Connection, w: usize, k: usize) {
+    ctx.set_op(&format!("closed waiter {w}/{k}"));
     let e = conn.closed().await;
-    ctx.log.lock().unwrap().closed[side] = Some(err_kind(&e));
+    if w == 0 {
+        ctx.log.lock().unwrap().closed[side] = Some(err_kind(&e));
+    }
     if !ctx.closing() {
         ctx.fail("c18-unexpected-error", format!("{} closed() resolved with {} although nobody closed and the network is fair", SIDE[side], err_kind(&e)));
     }
 }
 
-async fn confirmed_watcher(ctx: Ctx, conn: Connection) {
-    ctx.set_op("handshake_confirmed");
+async fn confirmed_watcher(ctx: Ctx, conn: Connection, w: usize, k: usize) {
+    ctx.set_op(&format!("handshake_confirmed waiter {w}/{k}"));
     if let Err(e) = conn.handshake_confirmed().await {
         ctx.conn_err("handshake_confirmed", err_kind(&e));
+    }
+}
+
+async fn authenticated_watcher(ctx: Ctx, conn: Connection, w: usize, k: usize) {
+    ctx.set_op(&format!("authenticated waiter {w}/{k}"));
+    if let Err(e) = conn.authenticated().await {
+        ctx.conn_err("authenticated", err_kind(&e));
     }
 }
 
@@ -1513,37 +1696,65 @@ fn spawn_conn_tasks(ctx: &mut Ctx, side: usize, conn: &Connection) {
     ctx.h.lock().unwrap().conn[side] = Some(conn.clone());
     ctx.log.lock().unwrap().connected[side] = true;
     let p = ctx.plan.clone();
-    let c = conn.clone();
-    ctx.spawn(format!("app:{s}:closed"), Class::UntilClose, move |x| closed_watcher(x, side, c));
-    let c = conn.clone();
-    ctx.spawn(format!("app:{s}:confirmed"), Class::Job, move |x| confirmed_watcher(x, c));
-    for bi in [true, false] {
+    let kw = p.sides[side].k_watch.max(1);
+    for w in 0..kw {
+        let c = conn.clone();
+        ctx.spawn(format!("app:{s}:closed{w}"), Class::UntilClose, move |x| closed_watcher(x, side, c, w, kw));
+        let c = conn.clone();
+        ctx.spawn(format!("app:{s}:confirmed{w}"), Class::Job, move |x| confirmed_watcher(x, c, w, kw));
+        if kw > 1 {
+            let c = conn.clone();
+            ctx.spawn(format!("app:{s}:authenticated{w}"), Class::Job, move |x| authenticated_watcher(x, c, w, kw));
+        }
+    }
+    for (d, bi) in [(0usize, true), (1usize, false)] {
         let n_open = if bi { p.sides[side].bi.len() } else { p.sides[side].uni.len() };
         let n_acc = if bi { p.sides[1 - side].bi.len() } else { p.sides[1 - side].uni.len() };
         let kind = if bi { "bi" } else { "uni" };
         if n_open > 0 {
-            let c = conn.clone();
-            ctx.spawn(format!("app:{s}:open_{kind}"), Class::Job, move |x| opener(x, side, c, bi));
+            let q = quotas(&mut ctx.rng, n_open, p.sides[side].k_open[d].max(1));
+            let k = q.len();
+            for (w, quota) in q.into_iter().enumerate() {
+                let c = conn.clone();
+                ctx.spawn(format!("app:{s}:open_{kind}{w}"), Class::Job, move |x| opener(x, side, c, bi, w, k, quota));
+            }
         }
         if n_acc > 0 || p.sides[side].trailing_accept {
-            let c = conn.clone();
-            let class = if n_acc > 0 { Class::Job } else { Class::UntilClose };
-            ctx.spawn(format!("app:{s}:accept_{kind}"), class, move |x| acceptor(x, side, c, bi));
+            let q = quotas(&mut ctx.rng, n_acc, p.sides[side].k_accept[d].max(1));
+            let k = q.len();
+            for (w, quota) in q.into_iter().enumerate() {
+                let c = conn.clone();
+                let class = if quota > 0 { Class::Job } else { Class::UntilClose };
+                ctx.spawn(format!("app:{s}:accept_{kind}{w}"), class, move |x| acceptor(x, side, c, bi, w, k, quota));
+            }
         }
     }
     if p.sides[side].dgrams > 0 {
-        let c = conn.clone();
-        ctx.spawn(format!("app:{s}:dgram_send"), Class::Job, move |x| dgram_sender(x, side, c));
+        let k = p.sides[side].k_dg_send.clamp(1, p.sides[side].dgrams);
+        for w in 0..k {
+            let c = conn.clone();
+            ctx.spawn(format!("app:{s}:dgram_send{w}"), Class::Job, move |x| dgram_sender(x, side, c, w, k));
+        }
     }
-    if p.sides[1 - side].dgrams > 0 {
-        let c = conn.clone();
-        ctx.spawn(format!("app:{s}:dgram_read"), Class::UntilClose, move |x| dgram_reader(x, side, c));
+    let n_dg = p.sides[1 - side].dgrams;
+    if n_dg > 0 {
+        if p.sides[side].dg_quota {
+            let q = quotas(&mut ctx.rng, n_dg, p.sides[side].k_dg_read.max(1));
+            let k = q.len();
+            for (w, quota) in q.into_iter().enumerate() {
+                let c = conn.clone();
+                ctx.spawn(format!("app:{s}:dgram_read{w}"), Class::Job, move |x| dgram_reader(x, side, c, w, k, Some(quota)));
+            }
+        } else {
+            let c = conn.clone();
+            ctx.spawn(format!("app:{s}:dgram_read0"), Class::UntilClose, move |x| dgram_reader(x, side, c, 0, 1, None));
+        }
     }
 }
 
 async fn client_main(mut ctx: Ctx, ep: Endpoint, cfg: ClientConfig, server: SocketAddr) {
     ctx.set_op("connect");
-    let connecting = match ep.connect_with(cfg, server, "localhost") {
+    let connecting = match ep.connect_with(cfg.clone(), server, "localhost") {
         Ok(c) => c,
         Err(e) => {
             ctx.log.lock().unwrap().connect_err[CLIENT] = Some(format!("{e:?}"));
@@ -1553,9 +1764,34 @@ async fn client_main(mut ctx: Ctx, ep: Endpoint, cfg: ClientConfig, server: Sock
             return;
         }
     };
+    let extra = ctx.plan.extra_connects;
+    let ep2 = if extra > 0 { Some(ep.clone()) } else { None };
     drop(ep);
     match connecting.await {
-        Ok(conn) => spawn_conn_tasks(&mut ctx, CLIENT, &conn),
+        Ok(conn) => {
+            spawn_conn_tasks(&mut ctx, CLIENT, &conn);
+            if let Some(ep) = ep2 {
+                // further connection attempts, one at a time: units for the concurrent Endpoint::accept waiters
+                // of the server, which refuses them
+                ctx.spawn("app:client:main_extra".into(), Class::Job, move |mut c| async move {
+                    for j in 0..extra {
+                        c.set_op("gap between connection attempts");
+                        c.unit_gap().await;
+                        c.set_op(&format!("connect (attempt {} of {extra}, to be refused)", j + 1));
+                        match ep.connect_with(cfg.clone(), server, "localhost") {
+                            Ok(connecting) => match connecting.await {
+                                Ok(conn) => {
+                                    c.count("result:extra-connect-accepted");
+                                    drop(conn);
+                                }
+                                Err(_) => c.count("result:extra-connect-refused"),
+                            },
+                            Err(_) => c.count("result:extra-connect-error"),
+                        }
+                    }
+                });
+            }
+        }
         Err(e) => {
             ctx.log.lock().unwrap().connect_err[CLIENT] = Some(err_kind(&e));
             ctx.conn_err("connect", err_kind(&e));
@@ -1563,10 +1799,15 @@ async fn client_main(mut ctx: Ctx, ep: Endpoint, cfg: ClientConfig, server: Sock
     }
 }
 
-async fn server_main(mut ctx: Ctx, ep: Endpoint) {
+/// waiter `w` of `k` concurrent tasks in `Endpoint::accept` on the same endpoint. The first connection attempt
+/// that any of them obtains is accepted, every later one refused. With k > 1 each waiter must obtain `quota`
+/// attempts (they add up to the attempts the client makes); waiter 0 then keeps accepting as before.
+async fn server_main(mut ctx: Ctx, ep: Endpoint, w: usize, k: usize, quota: usize) {
     let kind = ctx.plan.incoming;
+    let label = format!("endpoint.accept waiter {w}/{k}");
+    let mut taken = 0usize;
     loop {
-        let inc = cancelable!(ctx, "endpoint.accept", None, true, ep.accept());
+        let inc = cancelable!(ctx, &label, None, true, ep.accept());
         let Some(inc) = inc else {
             ctx.count("result:accept-none");
             break;
@@ -1578,24 +1819,39 @@ async fn server_main(mut ctx: Ctx, ep: Endpoint) {
             let _ = inc.retry();
             continue;
         }
-        ctx.spawn("app:server:handshake".into(), Class::Job, move |mut c| async move {
-            c.set_op("accept handshake");
-            let r = if kind == IncomingKind::IntoFuture {
-                inc.await
-            } else {
-                match inc.accept() {
-                    Ok(connecting) => connecting.await,
-                    Err(e) => Err(e),
+        taken += 1;
+        let first = !std::mem::replace(&mut ctx.log.lock().unwrap().first_incoming_taken, true);
+        if first {
+            ctx.spawn("app:server:handshake".into(), Class::Job, move |mut c| async move {
+                c.set_op("accept handshake");
+                let r = if kind == IncomingKind::IntoFuture {
+                    inc.await
+                } else {
+                    match inc.accept() {
+                        Ok(connecting) => connecting.await,
+                        Err(e) => Err(e),
+                    }
+                };
+                match r {
+                    Ok(conn) => spawn_conn_tasks(&mut c, SERVER, &conn),
+                    Err(e) => {
+                        c.log.lock().unwrap().connect_err[SERVER] = Some(err_kind(&e));
+                        c.conn_err("server handshake", err_kind(&e));
+                    }
                 }
-            };
-            match r {
-                Ok(conn) => spawn_conn_tasks(&mut c, SERVER, &conn),
-                Err(e) => {
-                    c.log.lock().unwrap().connect_err[SERVER] = Some(err_kind(&e));
-                    c.conn_err("server handshake", err_kind(&e));
-                }
+            });
+        } else {
+            ctx.count("op:incoming-refuse");
+            inc.refuse();
+        }
+        let all = ctx.took("endpoint.accept") > ctx.plan.extra_connects;
+        if k > 1 && taken == quota {
+            // the waiter that took the last expected attempt keeps accepting (retransmitted attempts, …)
+            if !all {
+                break;
             }
-        });
+            ctx.set_class(Class::EndpointLevel);
+        }
     }
 }
 
@@ -1732,8 +1988,15 @@ fn run_case(seed: u64, case: u64) -> CaseOut {
     {
         let mut root = Ctx { w: world.clone(), tw: TaskWaker::new(Class::Job), log: log.clone(), h: hs.clone(), rng: Rng::new(rng.next()), plan: plan.clone() };
         let (e1, e2) = (epc.clone(), eps.clone());
-        root.spawn("app:client:main".into(), Class::Job, move |c| client_main(c, e1, ccfg, addrs[SERVER]));
-        root.spawn("app:server:main".into(), Class::EndpointLevel, move |c| server_main(c, e2));
+        root.spawn("app:client:main0".into(), Class::Job, move |c| client_main(c, e1, ccfg, addrs[SERVER]));
+        let q = quotas(&mut rng, 1 + plan.extra_connects, plan.k_ep_accept);
+        let k = q.len();
+        for (w, quota) in q.into_iter().enumerate() {
+            let e = e2.clone();
+            let class = if k > 1 { Class::Job } else { Class::EndpointLevel };
+            root.spawn(format!("app:server:main{w}"), class, move |c| server_main(c, e, w, k, quota));
+        }
+        drop(e2);
         let mut h = hs.lock().unwrap();
         h.endpoint = [Some(epc), Some(eps)];
     }
@@ -1805,7 +2068,7 @@ fn run_case(seed: u64, case: u64) -> CaseOut {
                 if let Some(c) = conn {
                     let frames = c.stats().frame_rx.datagram;
                     let got = log.lock().unwrap().dg_recv[side];
-                    let reading = ex.tasks.iter().any(|t| !t.done() && t.name == format!("app:{}:dgram_read", SIDE[side]));
+                    let reading = ex.tasks.iter().any(|t| !t.done() && t.name.starts_with(&format!("app:{}:dgram_read", SIDE[side])));
                     if reading && got < frames {
                         fail("c18-lost-wakeup", format!("{} read_datagram pending at quiescence although {frames} DATAGRAM frames were received and only {got} handed out", SIDE[side]));
                     }
@@ -1852,6 +2115,12 @@ fn run_case(seed: u64, case: u64) -> CaseOut {
     let mut implicit_peer: Option<usize> = None;
     if panicked.is_none() {
         log.lock().unwrap().closing = true;
+        // concurrent Endpoint::accept waiters are owed connection attempts only while the client still makes them
+        for t in ex.tasks.iter() {
+            if t.name.starts_with("app:server:main") {
+                t.tw.info.lock().unwrap().class = Class::EndpointLevel;
+            }
+        }
         let r = catch_unwind(AssertUnwindSafe(|| -> Result<(), String> {
             match plan.close {
                 CloseKind::Explicit(s) => {
@@ -1878,7 +2147,7 @@ fn run_case(seed: u64, case: u64) -> CaseOut {
                     let had = hs.lock().unwrap().conn[s].is_some();
                     let prefix = format!("app:{}:", SIDE[s]);
                     for i in 0..ex.tasks.len() {
-                        if ex.tasks[i].name.starts_with(&prefix) && !ex.tasks[i].name.ends_with(":main") {
+                        if ex.tasks[i].name.starts_with(&prefix) && !ex.tasks[i].name.contains(":main") {
                             ex.kill(i)?;
                         }
                     }
@@ -1893,7 +2162,7 @@ fn run_case(seed: u64, case: u64) -> CaseOut {
             if let Some(s) = plan.drop_endpoint_early {
                 let name = format!("app:{}:main", SIDE[s]);
                 for i in 0..ex.tasks.len() {
-                    if ex.tasks[i].name == name {
+                    if ex.tasks[i].name.starts_with(&name) {
                         ex.kill(i)?;
                     }
                 }
@@ -1913,11 +2182,15 @@ fn run_case(seed: u64, case: u64) -> CaseOut {
                 if let Some(e) = e {
                     wait_idle_sides.push(s);
                     let mut root = Ctx { w: world.clone(), tw: TaskWaker::new(Class::Job), log: log.clone(), h: hs.clone(), rng: Rng::new(rng.next()), plan: plan.clone() };
-                    root.spawn(format!("app:{}:wait_idle", SIDE[s]), Class::Teardown, move |c| async move {
-                        c.set_op("wait_idle");
-                        e.wait_idle().await;
-                        drop(e);
-                    });
+                    let kw = plan.sides[s].k_watch.max(1);
+                    for w in 0..kw {
+                        let e = e.clone();
+                        root.spawn(format!("app:{}:wait_idle{w}", SIDE[s]), Class::Teardown, move |c| async move {
+                            c.set_op(&format!("wait_idle waiter {w}/{kw}"));
+                            e.wait_idle().await;
+                            drop(e);
+                        });
+                    }
                 }
             }
         }
@@ -2069,12 +2342,25 @@ fn run_case(seed: u64, case: u64) -> CaseOut {
         *c.entry("drop:endpoint-before-idle".into()).or_default() += 1;
     }
     *c.entry(format!("policy:{:?}", plan.policy)).or_default() += 1;
+    if plan.multi {
+        *c.entry("multi:cases".into()).or_default() += 1;
+        for sd in plan.sides.iter() {
+            for d in 0..2 {
+                *c.entry("multi:accept-waiters".into()).or_default() += (sd.k_accept[d] > 1) as u64 * sd.k_accept[d] as u64;
+                *c.entry("multi:open-waiters".into()).or_default() += (sd.k_open[d] > 1) as u64 * sd.k_open[d] as u64;
+            }
+            *c.entry("multi:read_datagram-waiters".into()).or_default() += (sd.k_dg_read > 1) as u64 * sd.k_dg_read as u64;
+            *c.entry("multi:send_datagram_wait-waiters".into()).or_default() += (sd.k_dg_send > 1) as u64 * sd.k_dg_send as u64;
+            *c.entry("multi:closed/confirmed/authenticated/wait_idle-waiters".into()).or_default() += sd.k_watch as u64;
+        }
+        *c.entry("multi:endpoint.accept-waiters".into()).or_default() += (plan.k_ep_accept > 1) as u64 * plan.k_ep_accept as u64;
+    }
     let jobs_done = l.jobs.values().filter(|j| j.w_done && j.r_done).count();
     let bytes: u64 = l.jobs.values().map(|j| j.read).sum();
     let nontrivial = l.connected[0] && l.connected[1] && l.cancels > 0 && ex.polls_pending > 0;
     let sample = format!(
-        "case {case}: close={:?} mid={:?} policy={:?} loss={}% tasks={} steps={} vtime={}ms jobs={} bytes={} cancels={} dgrams={}/{} closed=[{:?},{:?}] fails={}",
-        plan.close, plan.mid, plan.policy, plan.net.loss_pct, ex.tasks.len(), ex.steps, (world.now() - SEC) / MS, jobs_done, bytes, l.cancels,
+        "case {case}:{} close={:?} mid={:?} policy={:?} loss={}% tasks={} steps={} vtime={}ms jobs={} bytes={} cancels={} dgrams={}/{} closed=[{:?},{:?}] fails={}",
+        if plan.multi { " multi-waiter" } else { "" }, plan.close, plan.mid, plan.policy, plan.net.loss_pct, ex.tasks.len(), ex.steps, (world.now() - SEC) / MS, jobs_done, bytes, l.cancels,
         l.dg_recv[0] + l.dg_recv[1], l.dg_sent[0] + l.dg_sent[1], l.closed[0], l.closed[1], l.fails.len()
     );
     let out = CaseOut { fails: l.fails.clone(), counters: c, sig, polls: ex.polls_pending + ex.polls_ready, nontrivial, sample };
